@@ -95,6 +95,8 @@ def write_harness_ninja(bdir, flags):
         f"  command = g++ {flags} $in -o $out -lpthread",
     ]
     lib = os.path.join(bdir, "libdraco.a")
+    lines += ["rule linkwhole",
+              f"  command = g++ {flags} $in -Wl,--whole-archive {lib} -Wl,--no-whole-archive -o $out -lpthread"]
     for s in srcs:
         lines.append(f"build {s}.o: cxx {os.path.join(HARNESS_SRC, s)}")
     cobjs = " ".join(c + ".o" for c in common)
@@ -104,6 +106,15 @@ def write_harness_ninja(bdir, flags):
         objs = cobjs if m in mains else ""
         lines.append(f"build {exe}: link {m}.o {objs} {lib}")
         outs.append(exe)
+    # C15: the command line tools, compiled from the mirrored tree and linked against the same library
+    for tool in ("draco_encoder", "draco_decoder"):
+        src = os.path.join(MIRROR, "src", "draco", "tools", tool + ".cc")
+        if os.path.exists(src):
+            lines.append(f"build {tool}.tool.o: cxx {src}")
+            # whole archive: the file reader / writer factories are filled by static initialisers of
+            # stdio_file_reader.o / stdio_file_writer.o, which a plain archive link would drop
+            lines.append(f"build {tool}: linkwhole {tool}.tool.o | {lib}")
+            outs.append(tool)
     lines.append("default " + " ".join(outs))
     content = "\n".join(lines) + "\n"
     path = os.path.join(hdir, "build.ninja")
